@@ -105,7 +105,15 @@ class Gen:
         r = self.r
         f = self.fresh("f")
         p1, p2 = self.fresh("p"), self.fresh("p")
-        form = r.randrange(5)
+        form = r.randrange(6)
+        if form == 5:
+            # two defaulted parameters, the second default reads the first, body reads both; none/one/both omitted
+            d1 = self.N(d - 1, sc, inobj)
+            d2 = ("bin", "+", ("var", p1), self.N(0, sc, inobj))
+            body = ("bin", "+", ("bin", "*", ("var", p1), ("var", p2)), ("var", p1))
+            args = r.choice([[], [("pos", self.N(0, sc, inobj))], [("named", p2, self.N(0, sc, inobj))],
+                             [("named", p1, self.N(0, sc, inobj))]])
+            return ("local", [("bind", f, [("param", p1, d1), ("param", p2, d2)], body)], ("call", ("var", f), args, False))
         if form == 0:
             body = self.N(d - 1, sc + [(p1, "N")], inobj)
             fn = ("func", [("param", p1, None)], body)
